@@ -481,3 +481,89 @@ Proof.
 Qed.
 
 End Ord.
+
+(* ---------------- gluing: accepted items ---------------- *)
+Lemma discriminant_parse_single attrs rvs : discriminant_parse attrs rvs = Ok DSingle -> length rvs = 1.
+Proof.
+  unfold discriminant_parse. destruct (Nat.eqb_spec (length rvs) 1) as [E|E]; [auto|].
+  intros H. cbn [bind] in H. destruct (repr_scan attrs None) as [h| |]; cbn [bind] in H; try discriminate.
+  destruct h; destruct (forallb variant_fields_empty rvs); try discriminate.
+  destruct (existsb (fun v => isSome (rv_disc v)) rvs); discriminate.
+Qed.
+
+(* the known class F6: a field-less enum that Rust does not allow to be cast (`A() = 3`) *)
+Definition uncastable_fieldless (r : raw_item) : bool :=
+  forallb variant_fields_empty (raw_variants r) && negb (rust_castable (raw_variants r)).
+
+Lemma gen_strategy_cast_fieldless c attrs rvs disc vs w s :
+  c_nightly c = false -> discriminant_parse attrs rvs = Ok disc ->
+  gen_strategy c disc vs w = Some s -> uses_cast s = true -> forallb variant_fields_empty rvs = true.
+Proof.
+  intros Hn Hp Hs Hu. unfold gen_strategy in Hs. rewrite Hn in Hs.
+  unfold discriminant_parse in Hp. destruct (Nat.eqb (length rvs) 1); [inversion Hp; subst; discriminate|].
+  cbn [bind] in Hp. destruct (repr_scan attrs None) as [h| |]; cbn [bind] in Hp; try discriminate.
+  destruct (forallb variant_fields_empty rvs) eqn:Hf; [reflexivity|]. exfalso.
+  destruct h.
+  - inversion Hp; subst disc. destruct (c_safe c); inversion Hs; subst s; discriminate.
+  - destruct (existsb (fun v => isSome (rv_disc v)) rvs); [discriminate|]. inversion Hp; subst disc. inversion Hs; subst s. discriminate.
+Qed.
+
+(* for an accepted enum the signature builder never hits its `expect` / `unreachable!` *)
+Lemma gen_ord_signature_some c r i w t chk :
+  from_input c r = Ok i -> exists o, gen_ord_signature c (in_item i) w t chk = Some o.
+Proof.
+  intros H. destruct (from_input_inv c r i H) as [ia [_ [_ [_ K]]]].
+  unfold gen_ord_signature.
+  destruct (item_is_incomparable (in_item i)); [eexists; reflexivity|].
+  destruct (ri_kind r) as [sh fs|rvs|fs].
+  - destruct K as [d [_ ->]]. destruct (item_is_empty (IItem d) t); eexists; reflexivity.
+  - destruct K as [disc [pvs [fd [fi [Hvs [Hdisc [_ [_ [_ ->]]]]]]]]].
+    destruct (1 <? length pvs) eqn:Hlen; [|destruct (item_is_empty _ t); eexists; reflexivity].
+    apply Nat.ltb_lt in Hlen.
+    destruct (filter (fun v => negb (d_incomparable v)) pvs) as [|c1 [|c2 rest]] eqn:Hf.
+    + (* falls to the multi-variant branch *)
+      assert (Hs : exists s, gen_strategy c disc pvs w = Some s).
+      { unfold gen_strategy. destruct (c_nightly c) eqn:Hn; [eexists; reflexivity|].
+        destruct disc; try (repeat match goal with |- context [if ?b then _ else _] => destruct b end; eexists; reflexivity).
+        apply discriminant_parse_single in Hdisc. apply variants_discs in Hvs. lia. }
+      destruct Hs as [s ->]. eexists; reflexivity.
+    + destruct (existsb d_incomparable pvs) eqn:He; [eexists; reflexivity|]. exfalso.
+      assert (filter (fun v => negb (d_incomparable v)) pvs = pvs).
+      { apply filter_all_true. intros x Hx. destruct (d_incomparable x) eqn:E; [|reflexivity].
+        assert (existsb d_incomparable pvs = true) by (apply existsb_exists; eauto). congruence. }
+      rewrite H0 in Hf. rewrite Hf in Hlen. cbn in Hlen. lia.
+    + assert (Hs : exists s, gen_strategy c disc pvs w = Some s).
+      { unfold gen_strategy. destruct (c_nightly c) eqn:Hn; [eexists; reflexivity|].
+        destruct disc; try (repeat match goal with |- context [if ?b then _ else _] => destruct b end; eexists; reflexivity).
+        apply discriminant_parse_single in Hdisc. apply variants_discs in Hvs. lia. }
+      destruct Hs as [s ->]. eexists; reflexivity.
+  - destruct K as [d [_ ->]]. destruct (item_is_empty (IItem d) t); eexists; reflexivity.
+Qed.
+
+(* the discriminant strategy chosen for an accepted, rustc-valid enum reads Rust's discriminants *)
+Lemma oracle_of_input c r i w t chk inc be s :
+  from_input c r = Ok i -> valid_rust_enum r -> uncastable_fieldless r = false ->
+  gen_ord_signature c (in_item i) w t chk = Some (OMulti inc be s) ->
+  disc_oracle (rust_enum_of r) s (length (item_variants (in_item i))).
+Proof.
+  intros H V F6 Hg. destruct (from_input_inv c r i H) as [ia [_ [_ [_ K]]]].
+  unfold gen_ord_signature in Hg.
+  destruct (item_is_incomparable (in_item i)); [discriminate|].
+  destruct (ri_kind r) as [sh fs|rvs|fs] eqn:Hk.
+  - destruct K as [d [_ E]]. rewrite E in Hg. destruct (item_is_empty (IItem d) t); discriminate.
+  - destruct K as [disc [pvs [fd [fi [Hvs [Hdisc [_ [_ [_ E]]]]]]]]]. rewrite E in *. cbn [item_variants].
+    destruct (1 <? length pvs); [|destruct (item_is_empty _ t); discriminate].
+    assert (Hs : gen_strategy c disc pvs w = Some s).
+    { destruct (filter (fun v => negb (d_incomparable v)) pvs) as [|c1 [|c2 rest]];
+        try (destruct (existsb d_incomparable pvs); discriminate);
+        destruct (gen_strategy c disc pvs w); inversion Hg; reflexivity. }
+    destruct (variants_discs _ _ _ _ _ Hvs) as [Hl Hd].
+    intros k Hkk. eapply strategy_read_correct; eauto.
+    + destruct (c_nightly c) eqn:Hn; [exact I|]. split; [assumption | apply Hd; reflexivity].
+    + intros Hu. destruct (c_nightly c) eqn:Hn.
+      * unfold gen_strategy in Hs. rewrite Hn in Hs. inversion Hs; subst s. discriminate.
+      * pose proof (gen_strategy_cast_fieldless c _ _ _ _ _ _ Hn Hdisc Hs Hu) as Hfl.
+        unfold uncastable_fieldless, raw_variants in F6. rewrite Hk, Hfl in F6. cbn in F6.
+        destruct (rust_castable rvs); [reflexivity | discriminate].
+  - destruct K as [d [_ E]]. rewrite E in Hg. destruct (item_is_empty (IItem d) t); discriminate.
+Qed.
